@@ -142,4 +142,220 @@ theorem fromString_toString (s : List Nat) :
   simp only [bits8_vecByte]
   rw [flatten_16x8]
 
+
+/-! ## SharedSubnets / DiffSubnets -/
+
+/-- number of positions set on both sides -/
+def sharedCount : List Nat → List Nat → Nat
+  | [], _ => 0
+  | _ :: _, [] => 0
+  | av :: as, bv :: bs => (if av = 0 ∨ bv = 0 then 0 else 1) + sharedCount as bs
+
+theorem sharedGo_mem (as bs : List Nat) (i cnt : Nat) (lim : Option Nat) :
+    ∀ k ∈ sharedGo as bs i cnt lim, i ≤ k ∧ ∃ av bv, as[k - i]? = some av ∧ bs[k - i]? = some bv ∧ av ≠ 0 ∧ bv ≠ 0 := by
+  induction as generalizing bs i cnt with
+  | nil => intro k hk; simp [sharedGo] at hk
+  | cons av as ih =>
+    cases bs with
+    | nil => intro k hk; simp [sharedGo] at hk
+    | cons bv bs =>
+      intro k hk
+      unfold sharedGo at hk
+      split at hk
+      · obtain ⟨h1, a', b', h2, h3, h4, h5⟩ := ih bs (i + 1) cnt k hk
+        refine ⟨by omega, a', b', ?_, ?_, h4, h5⟩
+        · have : k - i = (k - (i + 1)) + 1 := by omega
+          rw [this]; simpa using h2
+        · have : k - i = (k - (i + 1)) + 1 := by omega
+          rw [this]; simpa using h3
+      · rename_i hne
+        have hne' : av ≠ 0 ∧ bv ≠ 0 := by omega
+        split at hk
+        · simp at hk; subst hk
+          exact ⟨Nat.le_refl _, av, bv, by simp, by simp, hne'.1, hne'.2⟩
+        · simp at hk
+          rcases hk with hk | hk
+          · subst hk
+            exact ⟨Nat.le_refl _, av, bv, by simp, by simp, hne'.1, hne'.2⟩
+          · obtain ⟨h1, a', b', h2, h3, h4, h5⟩ := ih bs (i + 1) (cnt + 1) k hk
+            refine ⟨by omega, a', b', ?_, ?_, h4, h5⟩
+            · have : k - i = (k - (i + 1)) + 1 := by omega
+              rw [this]; simpa using h2
+            · have : k - i = (k - (i + 1)) + 1 := by omega
+              rw [this]; simpa using h3
+
+theorem sharedCount_pos_of (as bs : List Nat) (j av bv : Nat)
+    (ha : as[j]? = some av) (hb : bs[j]? = some bv) (h1 : av ≠ 0) (h2 : bv ≠ 0) : 0 < sharedCount as bs := by
+  induction as generalizing bs j with
+  | nil => simp at ha
+  | cons a as ih =>
+    cases bs with
+    | nil => simp at hb
+    | cons b bs =>
+      unfold sharedCount
+      cases j with
+      | zero => simp at ha hb; subst ha; subst hb; simp [h1, h2]; omega
+      | succ j => simp at ha hb; have := ih bs j ha hb; omega
+
+theorem sharedGo_complete (as bs : List Nat) (i cnt : Nat) (lim : Option Nat)
+    (hl : ∀ L, lim = some L → cnt + sharedCount as bs ≤ L)
+    (j av bv : Nat) (ha : as[j]? = some av) (hb : bs[j]? = some bv) (h1 : av ≠ 0) (h2 : bv ≠ 0) :
+    i + j ∈ sharedGo as bs i cnt lim := by
+  induction as generalizing bs i cnt j with
+  | nil => simp at ha
+  | cons a as ih =>
+    cases bs with
+    | nil => simp at hb
+    | cons b bs =>
+      unfold sharedGo
+      unfold sharedCount at hl
+      split
+      · rename_i hz
+        cases j with
+        | zero => simp at ha hb; subst ha; subst hb; omega
+        | succ j =>
+          simp at ha hb
+          have := ih bs (i + 1) cnt (by intro L hL; have := hl L hL; simp [hz] at this; exact this) j ha hb
+          have e : i + (j + 1) = i + 1 + j := by omega
+          rw [e]; exact this
+      · rename_i hz
+        split
+        · rename_i hlim
+          have := hl _ hlim
+          simp [hz] at this
+          cases j with
+          | zero => simp
+          | succ j =>
+            simp at ha hb
+            have := sharedCount_pos_of as bs j av bv ha hb h1 h2
+            omega
+        · cases j with
+          | zero => simp
+          | succ j =>
+            simp at ha hb
+            have := ih bs (i + 1) (cnt + 1) (by intro L hL; have := hl L hL; simp [hz] at this; omega) j ha hb
+            have e : i + (j + 1) = i + 1 + j := by omega
+            rw [e]; exact List.mem_cons_of_mem _ this
+
+theorem sharedCount_le (as bs : List Nat) : sharedCount as bs ≤ as.length := by
+  induction as generalizing bs with
+  | nil => simp [sharedCount]
+  | cons a as ih =>
+    cases bs with
+    | nil => simp [sharedCount]
+    | cons b bs => unfold sharedCount; have := ih bs; simp; split <;> omega
+
+theorem sharedGo_sorted (as bs : List Nat) (i cnt : Nat) (lim : Option Nat) :
+    (sharedGo as bs i cnt lim).Pairwise (· < ·) := by
+  induction as generalizing bs i cnt with
+  | nil => simp [sharedGo]
+  | cons av as ih =>
+    cases bs with
+    | nil => simp [sharedGo]
+    | cons bv bs =>
+      unfold sharedGo
+      split
+      · exact ih bs _ _
+      · split
+        · simp
+        · refine List.pairwise_cons.mpr ⟨?_, ih bs _ _⟩
+          intro k hk
+          have := (sharedGo_mem as bs (i + 1) (cnt + 1) lim k hk).1
+          omega
+
+theorem sharedGo_length (as bs : List Nat) (i cnt L : Nat) (h : cnt < L) :
+    (sharedGo as bs i cnt (some L)).length + cnt ≤ L := by
+  induction as generalizing bs i cnt with
+  | nil => simp [sharedGo]; omega
+  | cons av as ih =>
+    cases bs with
+    | nil => simp [sharedGo]; omega
+    | cons bv bs =>
+      unfold sharedGo
+      split
+      · exact ih bs _ _ h
+      · split
+        · simp; omega
+        · rename_i hne
+          have : cnt + 1 < L := by
+            have : L ≠ cnt + 1 := fun e => hne (by rw [e])
+            omega
+          have := ih bs (i + 1) (cnt + 1) this
+          simp; omega
+theorem diffGo_mem (as bs : List Nat) (i k v : Nat) :
+    (k, v) ∈ diffGo as bs i ↔ i ≤ k ∧ bs[k - i]? = some v ∧ as[k - i]? ≠ some v := by
+  induction bs generalizing as i with
+  | nil => cases as <;> simp [diffGo]
+  | cons bv bs ih =>
+    cases as with
+    | nil =>
+      simp only [diffGo, List.mem_cons, Prod.mk.injEq, ih]
+      constructor
+      · rintro (⟨rfl, rfl⟩ | ⟨h1, h2, _⟩)
+        · simp
+        · refine ⟨by omega, ?_, by simp⟩
+          have : k - i = (k - (i + 1)) + 1 := by omega
+          rw [this]; simpa using h2
+      · rintro ⟨h1, h2, _⟩
+        by_cases e : k = i
+        · subst e; simp at h2; left; exact ⟨rfl, h2.symm⟩
+        · right
+          refine ⟨by omega, ?_, by simp⟩
+          have : k - i = (k - (i + 1)) + 1 := by omega
+          rw [this] at h2; simpa using h2
+    | cons av as =>
+      unfold diffGo
+      by_cases hne : av ≠ bv
+      · rw [if_pos hne]; simp only [List.mem_cons, Prod.mk.injEq, ih]
+        constructor
+        · rintro (⟨rfl, rfl⟩ | ⟨h1, h2, h3⟩)
+          · simp; exact hne
+          · refine ⟨by omega, ?_, ?_⟩
+            · have : k - i = (k - (i + 1)) + 1 := by omega
+              rw [this]; simpa using h2
+            · have : k - i = (k - (i + 1)) + 1 := by omega
+              rw [this]; simpa using h3
+        · rintro ⟨h1, h2, h3⟩
+          by_cases e : k = i
+          · subst e; simp at h2; left; exact ⟨rfl, h2.symm⟩
+          · right
+            have : k - i = (k - (i + 1)) + 1 := by omega
+            rw [this] at h2 h3
+            exact ⟨by omega, by simpa using h2, by simpa using h3⟩
+      · have heq : av = bv := by omega
+        rw [if_neg hne]; simp only [ih]
+        constructor
+        · rintro ⟨h1, h2, h3⟩
+          have : k - i = (k - (i + 1)) + 1 := by omega
+          refine ⟨by omega, ?_, ?_⟩
+          · rw [this]; simpa using h2
+          · rw [this]; simpa using h3
+        · rintro ⟨h1, h2, h3⟩
+          by_cases e : k = i
+          · subst e; simp at h2 h3; omega
+          · have : k - i = (k - (i + 1)) + 1 := by omega
+            rw [this] at h2 h3
+            exact ⟨by omega, by simpa using h2, by simpa using h3⟩
+
+theorem diffGo_sorted (as bs : List Nat) (i : Nat) : ((diffGo as bs i).map (·.1)).Pairwise (· < ·) := by
+  induction bs generalizing as i with
+  | nil => cases as <;> simp [diffGo]
+  | cons bv bs ih =>
+    have key : ∀ as', ∀ k ∈ (diffGo as' bs (i + 1)).map (·.1), i < k := by
+      intro as' k hk
+      simp only [List.mem_map] at hk
+      obtain ⟨⟨k', v⟩, hm, rfl⟩ := hk
+      have := ((diffGo_mem as' bs (i + 1) k' v).mp hm).1
+      simp; omega
+    cases as with
+    | nil =>
+      simp only [diffGo, List.map_cons]
+      exact List.pairwise_cons.mpr ⟨key [], ih [] (i + 1)⟩
+    | cons av as =>
+      unfold diffGo
+      split
+      · simp only [List.map_cons]
+        exact List.pairwise_cons.mpr ⟨key as, ih as (i + 1)⟩
+      · exact ih as (i + 1)
+
 end Ssv.Topics
